@@ -105,3 +105,10 @@ func (d *CLIDevice) NonEmptyLines() [][]byte {
 	}
 	return r
 }
+
+// DropOutputs skips the next n scripted outputs (commands that were never sent).
+func (d *CLIDevice) DropOutputs(n int) {
+	if n > 0 {
+		d.idx += n
+	}
+}
